@@ -123,7 +123,7 @@ package node
 //@   prologue $mayWrite = (message.Event == "reinit_dkg")
 //@   prologue $initEvent = false
 //@   modifies *
-//@   modifies $vSender, $vData, $vSig, $vRound, $fx, $sends, $lastSent, $stored, $pend, $retired, $bufc, $dos, $savedAtDo
+//@   modifies $vSender, $vData, $vSig, $vRound, $fx, $sends, $lastSent, $stored, $pend, $retired, $bufc, $bufWrites, $dos, $savedAtDo
 //@   epilogue $handledNext = message.Offset + 1
 //@   ensures unchanged("BaseNodeService.userName", "BaseNodeService.state", "BaseNodeService.storage", "BaseNodeService.ctx")
 //@   ensures[C09.skip.keep] s.SkipCommKeysVerification == old(s.SkipCommKeysVerification)
@@ -211,7 +211,7 @@ package node
 //@   requires s != nil
 //@   requires[C09.guard] $mayWrite
 //@   modifies *
-//@   modifies $mayWrite, $initEvent, $vSender, $vData, $vSig, $vRound, $fx, $sends, $lastSent, $bufc, $dos, $savedAtDo
+//@   modifies $mayWrite, $initEvent, $vSender, $vData, $vSig, $vRound, $fx, $sends, $lastSent, $bufc, $bufWrites, $dos, $savedAtDo
 //@   loop 0 invariant $mayWrite && s.SkipCommKeysVerification
 //@   loop 0 invariant req.Messages == $range
 //@   loop 0 invariant[C20.replay.stop] forall j int :: 0 <= j && j <= $i ==> req.Messages[j].Event != "event_signing_start"
@@ -281,7 +281,7 @@ package node
 //@   nosafety
 //@   requires s != nil
 //@   modifies *
-//@   modifies $mayWrite, $initEvent, $vSender, $vData, $vSig, $vRound, $fx, $sends, $lastSent, $stored, $pend, $retired, $handledNext, $bufc, $dos, $savedAtDo, $offsetSaves, $fetched, $savesAtFetch
+//@   modifies $mayWrite, $initEvent, $vSender, $vData, $vSig, $vRound, $fx, $sends, $lastSent, $stored, $pend, $retired, $handledNext, $bufc, $bufWrites, $dos, $savedAtDo, $offsetSaves, $fetched, $savesAtFetch
 //@   prologue $fetched = 0
 //@   prologue $savesAtFetch = $offsetSaves
 //@   loop 0 invariant[C13.offset.every] $offsetSaves == $savesAtFetch + $fetched
